@@ -627,6 +627,14 @@ impl ElementRaw {
                         }
                     }
                     ElementContent::CharacterData(cdata) => {
+                        // an enum value that does not exist in the target version makes the whole element incompatible
+                        if let Some(cdataspec) = elemtype.chardata_spec() {
+                            if !cdata.check_version_compatibility(cdataspec, target_version).0 {
+                                return Err(AutosarDataError::VersionIncompatibleData {
+                                    version: target_version,
+                                });
+                            }
+                        }
                         copy.content.push(ElementContent::CharacterData(cdata.clone()));
                     }
                 }
